@@ -225,6 +225,41 @@ def run(ctx):
                             ctx.violation("persistence mode %s changed the hash" % ev["mode"], {"kind": "canon_trace", "event": ev})
         n2, _ = canon_against_spec(ctx, list(frz.values()), "recorded")
         ctx.extra["canon_rows_from_traces"] = n2
+    if prop == "C15":
+        w = 8 if quick else 16
+        ctx.tlc(SPEC, "MC_InstanceHandles.tla", "InstanceHandles_exh.cfg" if quick else "InstanceHandles_exh_big.cfg", workers=w, timeout=3000)
+        r1 = ctx.tlc(SPEC, "MC_InstanceHandles.tla", "InstanceHandles_edges.cfg", workers=w, timeout=3000)
+        r2 = ctx.tlc(SPEC, "MC_InstanceHandles.tla", "InstanceHandles_sim.cfg", name="ih_sim", workers=w,
+                     simulate=(400 if quick else 20000), depth=35, timeout=3000)
+        r3 = ctx.tlc(SPEC, "MC_InstanceHandles.tla", "InstanceHandles_sim2.cfg", name="ih_sim2", workers=w,
+                     simulate=(400 if quick else 20000), depth=35, timeout=3000)
+        ibeh = r1.replays + r2.replays + r3.replays
+        if len(r1.replays) < 1000 or len(r2.replays) < 100:
+            raise ToolError("TLC exported too few InstanceHandles behaviours")
+        isum, _ = replay_behaviours(ctx, "engine", "inst-replay", ibeh, "inst_behaviours")
+        ctx.extra["inst_replay_steps"] = isum["steps"]
+        ctx.extra["inst_action_histogram"] = isum["by_action"]
+        need = ['create:"none"', 'delete:0', 'delprefix:0', 'iternext:"err"', 'iternext:"some"', 'iternext:"none"', 'iterdelete:1', 'iterdelete:0',
+                'iterdelete:"max"', 'read:"max"', 'write:"max"', 'resize:"max"', 'resume_same:ok', 'resume_updated:ok']
+        missing = [a for a in need if isum["by_action"].get(a, 0) == 0]
+        if missing:
+            raise ToolError("vacuous run: InstanceHandles outcomes never exercised: %s" % missing)
+        # canary: alter one expected result code
+        for b in ibeh:
+            steps = json.loads(b)
+            if steps[-1]["a"] == "delete" and steps[-1]["r"] == [0]:
+                steps[-1]["r"] = [2]
+                inp = os.path.join(ctx.work, "canary_inst.ndjson")
+                outp = os.path.join(ctx.work, "canary_inst.res")
+                write_ndjson(inp, [json.dumps(steps)])
+                ctx.harness("engine", ["inst-replay", inp, outp])
+                if not [r for r in read_ndjson(outp) if not r.get("summary")]:
+                    raise ToolError("canary: altered InstanceHandles expectation not flagged")
+                ctx.extra["canary_inst"] = "altered refusal code flagged"
+                break
+        else:
+            raise ToolError("canary: no locked delete in the exported behaviours")
+        ctx.assumptions.append("on resume the scheduler passes the original state handle with state_updated=false (rolled-back inner call) or the newer generation with state_updated=true; these are the two documented protocols (DESIGN O6)")
     ctx.rule = ("behaviours: one per transition of the TLC state graph of StateTrie (small constants) plus random "
                 "simulated behaviours (full constants), each replayed in two driving modes with the full projection "
                 "compared after every step; traces: seeded random workloads on the real trie validated by TLC. "
